@@ -51,17 +51,26 @@ Qed.
 Lemma R_do_input al cur ms tok ms' nm st :
   do_input al cur (Ok ms) tok = Ok ms' ->
   RX nm cur al (get_model nm ms) st ->
-  (nm = cur -> n_bb st = false /\ n_outn st = []) ->
+  (nm = cur -> n_bb st = false /\ n_outn st = [] /\ reserved nm = false) ->
   RX nm cur al (get_model nm ms') (if str_eqb nm cur then in_tok st tok else st).
 Proof.
   intros H HR Hc. unfold do_input in H. cbn [bind] in H.
   destruct (pni tok) as [[p i]|] eqn:Ep; [|discriminate]. cbn [bind] in H. apply pni_nb in Ep.
+  destruct (input_io cur p ms) eqn:Eio.
+  { (* an output port named as input: cannot happen in the section being read (no .outputs line yet) *)
+    destruct (str_eqb nm cur) eqn:E.
+    - exfalso. apply str_eqb_spec in E. subst nm. destruct (Hc eq_refl) as [C2 [C3 C4]].
+      pose proof (r_dir _ _ _ (RX_R _ _ _ _ _ HR) C4 p) as Hd. unfold input_io in Eio. unfold port_dir in Hd.
+      destruct (find_port p (m_ports (get_model cur ms))) as [q|]; [|discriminate].
+      rewrite Hd, C3 in Eio. destruct (mem p (n_inn st)); cbn in Eio; discriminate.
+    - inversion H; subst ms'. apply str_eqb_false in E. apply RX_other; [exact E|]. apply RX_R in HR.
+      eapply R_geq; [apply geq_grow_port|]. rewrite get_model_upd_other; [exact HR|intros x Hx; exact Hx|exact E]. }
   set (ms1 := match find_port _ _ with None => _ | Some _ => _ end) in H.
   set (ms2 := grow_port cur p (S i) ms1) in H.
   assert (N1 : map m_name ms1 = map m_name ms).
   { unfold ms1. destruct (find_port _ _); [apply upd_model_names; intros x Hx; exact Hx|apply names_add_port]. }
   destruct (str_eqb nm cur) eqn:E.
-  - apply str_eqb_spec in E. subst nm. destruct (Hc eq_refl) as [C2 C3].
+  - apply str_eqb_spec in E. subst nm. destruct (Hc eq_refl) as [C2 [C3 _]].
     destruct (get_model_upd_res_same _ _ _ _ H) as [m' [H1 [H2 H3]]]; [intros; eapply connect_to_name; eauto|].
     assert (Hf : find_model cur ms = Some (get_model cur ms)).
     { eapply (find_of_names cur ms ms2); [|exact H3]. unfold ms2. rewrite names_grow_port. exact N1. }
@@ -100,7 +109,7 @@ Proof. repeat split. Qed.
 Lemma R_do_inputs al cur l : forall ms ms' nm st,
   fold_left (do_input al cur) l (Ok ms) = Ok ms' ->
   RX nm cur al (get_model nm ms) st ->
-  (nm = cur -> n_bb st = false /\ n_outn st = []) ->
+  (nm = cur -> n_bb st = false /\ n_outn st = [] /\ reserved nm = false) ->
   RX nm cur al (get_model nm ms') (if str_eqb nm cur then fold_left in_tok l st else st).
 Proof.
   induction l as [|t l IH]; intros ms ms' nm st H HR Hc; cbn [fold_left] in *.
